@@ -305,7 +305,9 @@ fn run_case(job: &Job, case: u64, part: &mut Part) {
     let bystander = case % 4 >= 2;
     if bystander {
         let v = CounterVec::new(Opts::new("bystander", "help"), &["v"]).unwrap();
-        for i in 0..(20 + rng.below(200)) {
+        // (kept tiny under the interpreter, where the engine is `native`)
+        let many = 20 + rng.below(200);
+        for i in 0..(if matches!(job.engine, Engine::Native) { 3 } else { many }) {
             v.with_label_values(&[&format!("child{}", i)]).inc();
         }
         reg.register(Box::new(v)).unwrap();
@@ -485,6 +487,12 @@ pub fn run(job: &Job, part: &mut Part) {
     match job.engine {
         Engine::E2 => {
             part.inconclusive = Some("the registry's lock is not routed through the sync shim: this workload runs on real threads only".into());
+        }
+        // the Miri stage asks for a number of cases (no clock under isolation)
+        Engine::Native => {
+            for case in job.first_case..job.first_case + job.cases {
+                run_case(job, case, part);
+            }
         }
         _ => {
             let start = std::time::Instant::now();
